@@ -162,7 +162,8 @@ SYMRT_HARNESS(C05_ops) {
     check_grid(c1, R, n, tag + " copy-constructed", false);
     check_grid(c2, R, n, tag + " assigned", false);
     break; }
-  case 5: { // affine_image / affine_preimage
+  case 5: { // affine_image / affine_preimage, from every lazy state of the receiver
+    { int st = symrt::choose("state", 4); if (st == 1) (void) gr.minimized_grid_generators(); else if (st == 2) (void) gr.grid_generators(); else if (st == 3) { (void) gr.grid_generators(); (void) gr.minimized_congruences(); } }
     unsigned v = symrt::choose("var", n);
     std::vector<mpz_class> ea; Linear_Expression le; for (unsigned j = 0; j < n; ++j) { ea.push_back(symrt::cinput(S("e", j), -B, B)); le += ea[j] * Variable(j); }
     mpz_class eb = symrt::cinput("eb", -B, B); le += eb;
